@@ -4,6 +4,7 @@
 package main
 
 import (
+	"strconv"
 	"strings"
 
 	"golang.org/x/perf/benchfmt"
@@ -92,9 +93,30 @@ func runCase(id int, name []byte, cfg [][2]string) {
 			pub = "DIFF:" + k
 		}
 	}
+	// Filters agree with the extractors: key:"<extracted value>" matches (also when the value is
+	// the empty string of an absent key) and key:"<value>\x01" does not.
+	flt := "ok"
+	for i, k := range keys {
+		if k == "" || k == ".config" || k == ".unit" || strings.HasPrefix(vals[i], "!") {
+			continue
+		}
+		v := string(hx.UnHex(vals[i]))
+		for j, want := range []bool{true, false} {
+			q := strconv.Quote(k) + ":" + strconv.Quote(v+[]string{"", "\x01"}[j])
+			f, err := benchproc.NewFilter(q)
+			if err != nil {
+				flt = "err:" + hx.HexS(k)
+				break
+			}
+			got, _ := f.Apply(res)
+			if got != want {
+				flt = []string{"nomatch:", "overmatch:"}[j] + hx.HexS(k)
+			}
+		}
+	}
 	line := "base=" + hx.Hex(base) + " base2=" + hx.Hex(base2) + " parts=" + hx.HexList(parts) + " vals=" + strings.Join(vals, ",")
 	hx.Printf("obs %d %s fx=%s pub=%s\n", id, line, strings.Join(fx, ","), pub)
-	hx.Printf("sobs %d %s fx=%s\n", id, line, strings.Join(fx, ","))
+	hx.Printf("sobs %d %s fx=%s flt=%s\n", id, line, strings.Join(fx, ","), flt)
 }
 
 // cfgCase exercises configuration built through the API (SetConfig incl. deletion, Clone, edits
